@@ -67,11 +67,11 @@ PROPS = {
                 "max_depth in {0,1,2,3,6,10} (at most 4 / 3 for non-deterministic sets of more than 3 / 5 rules: the search is exponential in the bound on cyclic sets); strategies depth-first (3/5), breadth-first, iterative; max_solutions 1 and 3; plus a structured family (a third as many cases): a goal needing a conjunction of sub-goals, each with a chain of rules down to a base fact, decoy rules listed first that reach a shared "
                 "sub-goal through a longer path, max_depth = exact height needed -2..+1. Observed per query: provable, the caller's facts before and after. non-trivial = provable",
         "level_text": "Theorems (Coq, every rule set / goal / depth / facts): whenever the depth-first search with execution - at the root or at any sub-goal - reports a goal proven, the goal comparison holds in the facts "
-                "it hands back; the same for iterative deepening. The model of the search (candidate selection, recursive proof of unmet conditions, re-execution, rollback of failed candidates) predicts the verdict of "
+                "it hands back; the same for iterative deepening; and for Horn-style sets every result stays within EVERY closed set of atoms that covers the facts asked on - a proven goal is satisfied by an atom of the forward closure. The model of the search (candidate selection, recursive proof of unmet conditions, re-execution, rollback of failed candidates) predicts the verdict of "
                 "every single depth-first and iterative query (and of whole histories on deterministic rule sets) and is compared with the code; the Coq-defined monitor checks on the implementation's observations, for all three strategies: provable -> "
                 "goal true in the facts handed back AND in the many-valued forward closure of the rules on the facts asked on; (depth-first, conjunctive, monotone instances) goal at level max_depth of the bounded "
                 "forward derivation -> provable; verdict = verdict of a fresh search on the same facts.",
-        "level_note": "Partial: closure-soundness and bounded completeness are monitored on every case but not yet theorems; breadth-first search depends on hash-set iteration order and is monitored only. Trusted: Coq kernel; model of "
+        "level_note": "Partial: bounded completeness is monitored on every applicable case but not yet a theorem; breadth-first search depends on hash-set iteration order and is monitored only. Trusted: Coq kernel; model of "
                 "search.rs / rule_executor.rs / condition_evaluator.rs / conclusion_index.rs after fixes 692df85 047f79f ab15463 dfacdc7 fe5aaf4 f980bee (Horn core: field-op-literal conditions, literal assignments, flat fact "
                 "names; no negated goals, TMS/RETE attachment, functions or multifield conditions); harness; extraction. Axioms: none.",
         "trusted_base": ["std HashSet iteration order of the root candidate set: the model predicts verdicts only where they cannot depend on it"],
